@@ -1,5 +1,5 @@
 (* Pins for C17: frozen copies of the statements in Props/C17.v. *)
-From Clvm Require Import Model.BackRef Model.ReadCache Model.SerBR Proofs.BackRefEmit Proofs.SerBRProofs Props.C17.
+From Clvm Require Import Model.BackRef Model.ReadCache Model.SerBR Proofs.BackRefEmit Proofs.SerBRProofs Proofs.SerBRTotal Props.C17.
 Open Scope N_scope.
 
 Check C17_emit_ok : forall P t bs rest, enc P [] t bs ->
@@ -42,3 +42,25 @@ Check enc_pair : forall (P : sexp -> bytes -> Prop) stk l r el er,
   enc P stk l el -> enc P (l :: stk) r er -> enc P stk (Cons l r) (0xff :: el ++ er).
 Check enc_ref : forall (P : sexp -> bytes -> Prop) stk t path pe c, wf_bytes path = true -> ser_atom path = Some pe ->
   traverse_path path (stack_list stk) = Ok (c, t) -> P t pe -> enc P stk t (0xfe :: pe).
+
+Check (C17_total : forall H,
+  (forall t1 t2, treehash H t1 = treehash H t2 -> t1 = t2) ->
+  forall t, atoms_u32 t = true -> 6 * N.of_nat (n_nodes t) + 1 <= 4294967295 ->
+  exists bs, node_to_bytes_backrefs H t = Ok bs).
+
+Check (C17_find_path_total : forall (H : bytes -> bytes) s id len, exists r, find_path s id len = Ok r).
+
+Check (C17_all : forall H,
+  (forall t1 t2, treehash H t1 = treehash H t2 -> t1 = t2) ->
+  forall t, wf_sexp t = true -> atoms_u32 t = true -> 6 * N.of_nat (n_nodes t) + 1 <= 4294967295 ->
+  exists bs, node_to_bytes_backrefs H t = Ok bs /\
+    de_br_spec bs = Ok (t, []) /\
+    snd (node_from_stream_backrefs bs) = Ok (t, []) /\
+    snd (node_from_stream_backrefs_old bs) = Ok (t, []) /\
+    serialized_length_from_bytes bs = Ok (blen bs) /\
+    is_canonical_serialization bs = BTrue /\
+    (forall e, ser t = Some e -> blen e < 4294967291 -> blen bs <= blen e) /\
+    (forall t' rest, snd (node_from_stream_backrefs bs) = Ok (t', rest) -> node_to_bytes_backrefs H t' = Ok bs)).
+
+Check (eq_refl : atoms_u32 = fix f (t : sexp) : bool :=
+  match t with Atom b => blen b <? 4294967291 | Cons l r => f l && f r end).
